@@ -12,6 +12,7 @@ mutex `qm` (mutex 1) is exactly the model's `mx` / `sh` / `qm`, that the mapped 
 (shared) mutex semantics for both, and that every write of the object is made holding `m` exclusively
 and every read holding `m` in some mode.  The orders of the pending flag are an arbitrary parameter. -/
 namespace ConcVerif.Deferred
+open HB (lq_lt lq_mono lq_last)
 
 /-! ### what each event does to the three lock fields -/
 
@@ -525,5 +526,144 @@ theorem obj_access_state {spur : Bool} {es : List (Tid × Ev)} {s : St} (h : run
       | some w =>
         have := hL.xs (by rw [hmx]; intro h; cases h)
         rw [this] at hin; cases hin
+/-! ### object and queue together: what a DEFERRED function does to the object comes after its push -/
+
+theorem step_pc_frame {s s' : St} {t u : Tid} {e : Ev} (hs : step s t e = some s') (hu : u ≠ t) : s'.pc u = s.pc u := by
+  have h := step_sound hs
+  cases h <;> simp [St.setPc, hu]
+
+theorem granted_ne_dIn (sc : SCtx) (c : Ctx) (j : TaskId) : sc.granted ≠ .dIn c j := by
+  cases sc <;> simp [SCtx.granted]
+
+/-- only `ucb` brings a thread into the function of a queued task -/
+theorem step_dIn {s s' : St} {t : Tid} {e : Ev} (hs : step s t e = some s') (he : ∀ j, e ≠ .ucb j) {c : Ctx} {j : TaskId}
+    (hp : s'.pc t = .dIn c j) : s.pc t = .dIn c j := by
+  unfold step at hs
+  split at hs
+  all_goals (try split at hs)
+  all_goals (try split at hs)
+  all_goals (try split at hs)
+  all_goals (try split at hs)
+  all_goals (try contradiction)
+  all_goals (try (injection hs with hs; subst hs))
+  all_goals first
+    | exact hp
+    | exact absurd rfl (he _)
+    | (simp [St.setPc] at hp; done)
+    | (simp [St.setPc] at hp; split at hp <;> cases hp)
+    | (simp [St.setPc] at hp; exact absurd hp (granted_ne_dIn _ _ _))
+
+theorem ucb_pc {s s' : St} {t : Tid} {j : TaskId} (hs : step s t (.ucb j) = some s') :
+    (∃ c rest, s.batch = j :: rest ∧ s'.pc t = .dIn c j) ∨ (∃ a, s'.pc t = .aIn j a) := by
+  cases hp : s.pc t <;> simp [step, hp] at hs
+  rename_i c
+  cases hb : s.batch with
+  | cons b rest =>
+    simp [hb] at hs
+    obtain ⟨h1, h⟩ := hs; subst h; subst h1
+    exact .inl ⟨c, rest, rfl, by simp [St.setPc]⟩
+  | nil =>
+    simp [hb] at hs
+    cases c with
+    | mod k a =>
+      simp at hs
+      obtain ⟨h1, h⟩ := hs; subst h; subst h1
+      exact .inr ⟨a, by simp [St.setPc]⟩
+    | sh c => simp at hs
+
+/-- every thread inside the function of a QUEUED task entered it at some `q` (its `ucb`), and the end of
+the push of that task happens-before `q` -/
+def InTask (spur : Bool) (o : FlagOrds) (es : List (Tid × Ev)) (pc : Tid → Pc) : Prop :=
+  ∀ u c j, pc u = .dIn c j →
+    ∃ q p, es[q]? = some (u, Ev.ucb j) ∧ Pushed spur es p j ∧ HB.HB (hbTrace o es) p q
+
+theorem inTask_old {spur : Bool} {o : FlagOrds} {es : List (Tid × Ev)} {pc : Tid → Pc} (x : Tid × Ev)
+    (h : InTask spur o es pc) {u : Tid} {c : Ctx} {j : TaskId} (hp : pc u = .dIn c j) :
+    ∃ q p, (es ++ [x])[q]? = some (u, Ev.ucb j) ∧ Pushed spur (es ++ [x]) p j ∧ HB.HB (hbTrace o (es ++ [x])) p q := by
+  obtain ⟨q, p, h1, h2, h3⟩ := h u c j hp
+  exact ⟨q, p, lq_mono _ h1, h2.mono _, by rw [hbTrace_append]; exact h3.mono _⟩
+
+theorem inTask_step {spur : Bool} {o : FlagOrds} {es : List (Tid × Ev)} {s s' : St} {t : Tid} {e : Ev}
+    (hr : run spur es = some s) (h : InTask spur o es s.pc) (hs : step s t e = some s') :
+    InTask spur o (es ++ [(t, e)]) s'.pc := by
+  intro u c j hp
+  by_cases hu : u = t
+  · subst hu
+    by_cases he : ∀ j', e ≠ .ucb j'
+    · exact inTask_old _ h (step_dIn hs he hp)
+    · have : ∃ j', e = .ucb j' := by
+        cases e <;> first | exact ⟨_, rfl⟩ | (exfalso; apply he; intro _ h; cases h)
+      obtain ⟨j', he'⟩ := this
+      subst he'
+      rcases ucb_pc hs with ⟨c', rest, hb, hp'⟩ | ⟨a, hp'⟩
+      · rw [hp'] at hp; injection hp with _ hj; subst hj
+        rcases closure_hb o hr hs with ⟨hb', _⟩ | ⟨p, h1, h2⟩
+        · rw [hb'] at hb; cases hb
+        · exact ⟨es.length, p, lq_last _ _, h1.mono _, h2⟩
+      · rw [hp'] at hp; cases hp
+  · rw [step_pc_frame hs hu] at hp
+    exact inTask_old _ h hp
+
+theorem inTask_run {spur : Bool} (o : FlagOrds) {es : List (Tid × Ev)} {s : St} (h : run spur es = some s) :
+    InTask spur o es s.pc := by
+  induction es using HB.snoc_induction generalizing s with
+  | h0 =>
+    simp [run] at h; subst h
+    intro u c j hp; simp [init] at hp
+  | hs es x ih =>
+    obtain ⟨t, e⟩ := x
+    simp only [run, runFrom_append] at h
+    cases h1 : runFrom step (init spur) es with
+    | none => simp [h1] at h
+    | some s1 =>
+      simp only [h1, Option.bind_some, runFrom_cons, runFrom_nil] at h
+      cases h2 : step s1 t e with
+      | none => simp [h2] at h
+      | some s2 =>
+        simp [h2] at h; subst h
+        exact inTask_step h1 (ih h1) h2
+
+/-- **a deferred function's events come after its push**: if thread `t` performs the event at position
+`n` while it is inside the function of queued task `j` (pc `dIn _ j` in the state before the event —
+reads and writes of the object, the return or the throw of the function), the `unlock qm` that ended the
+push of `j` happens-before `n` -/
+theorem deferred_after_push {spur : Bool} (o : FlagOrds) {es : List (Tid × Ev)} {s1 : St} {n : Nat} {t : Tid} {e : Ev}
+    (hn : es[n]? = some (t, e)) (h1 : run spur (es.take n) = some s1) {c : Ctx} {j : TaskId}
+    (hpc : s1.pc t = .dIn c j) : ∃ p, p < n ∧ Pushed spur es p j ∧ HB.HB (hbTrace o es) p n := by
+  obtain ⟨q, p, hq, hp, hhb⟩ := inTask_run o h1 t c j hpc
+  have hnl : n < es.length := lq_lt hn
+  have hlen : (es.take n).length = n := by simp [List.length_take]; omega
+  have hqn : q < n := by have := lq_lt hq; omega
+  have hpn : p < n := by
+    obtain ⟨_, _, _, _, _, h3⟩ := hp
+    have := lq_lt h3; omega
+  have hp' : Pushed spur es p j := by
+    have := hp.mono (es.drop n); rwa [List.take_append_drop] at this
+  have hq' : es[q]? = some (t, Ev.ucb j) := by
+    have := lq_mono (es.drop n) hq; rwa [List.take_append_drop] at this
+  have hhb' : HB.HB (hbTrace o es) p q := by
+    have := hhb.mono (hbTrace o (es.drop n))
+    rwa [← hbTrace_append, List.take_append_drop] at this
+  exact ⟨p, hpn, hp', .trans hhb' (.po hqn (hbTrace_get hq') (hbTrace_get hn))⟩
+
+/-- a write of the object is made inside the caller's own function (direct path) or inside the function
+of a queued task -/
+theorem pwr_origin {s s' : St} {t : Tid} {v : Int} (hs : step s t (.pwr v) = some s') :
+    (∃ k a, s.pc t = .aIn k a) ∨ (∃ c j, s.pc t = .dIn c j) := by
+  cases hp : s.pc t <;> simp [step, hp] at hs
+  · exact .inr ⟨_, _, rfl⟩
+  · exact .inl ⟨_, _, rfl⟩
+
+/-- every write of the object: direct path, or deferred and then after the end of its push -/
+theorem write_origin {spur : Bool} (o : FlagOrds) {es : List (Tid × Ev)} {s : St} (h : run spur es = some s) {n : Nat}
+    {t : Tid} {v : Int} (hn : es[n]? = some (t, .pwr v)) :
+    ∃ s1, run spur (es.take n) = some s1 ∧
+      ((∃ k a, s1.pc t = .aIn k a) ∨
+       (∃ c j, s1.pc t = .dIn c j ∧ ∃ p, p < n ∧ Pushed spur es p j ∧ HB.HB (hbTrace o es) p n)) := by
+  obtain ⟨s1, s2, h1, h2⟩ := HB.runFrom_at h hn
+  refine ⟨s1, h1, ?_⟩
+  rcases pwr_origin h2 with hd | ⟨c, j, hpc⟩
+  · exact .inl hd
+  · exact .inr ⟨c, j, hpc, deferred_after_push o hn h1 hpc⟩
 
 end ConcVerif.Deferred
